@@ -5,7 +5,7 @@ import vlib
 PROBE64_SIG = "parallel_for adaptive wait=true 64-bit range ending at the type maximum (stripe cursor overflow)"
 
 
-def run_parfor(ctx, replay, prop, theorems, module, known_probe=False):
+def run_parfor(ctx, replay, prop, theorems, module, known_probe=False, thorough_samples=4000, thorough_stride=1):
     ctx.cov["rule"] = ("parallel_for calls on real pools of 0..4 threads over all eight integer index types: edge-biased "
                        "(start, end) pairs (type limits, +-1, zero, random; lengths from empty to 2^62), chunking mode "
                        "(static / adaptive / explicit 1..5), maxThreads (0,1,2,3,4,5,8,INT32_MAX), wait, minItemsPerChunk, "
@@ -44,9 +44,9 @@ def run_parfor(ctx, replay, prop, theorems, module, known_probe=False):
         jobs = [(replay.get("type_index", 0), replay["args"])]
     else:
         for i, t in enumerate(types):
-            jobs.append((i, [prop, ctx.seed, 120 if q else 4000, "sample"]))
+            jobs.append((i, [prop, ctx.seed, 120 if q else thorough_samples, "sample"]))
             if t[2] == 8:
-                jobs.append((i, [prop, ctx.seed, 97 if q else 1, "exh8"]))
+                jobs.append((i, [prop, ctx.seed, 97 if q else thorough_stride, "exh8"]))
 
     def runjob(j):
         i, args = j
